@@ -54,7 +54,7 @@ func oracleUnwind(c mrun.Case, ctx *pbt.Ctx) error {
 		return err
 	}
 	if ctx.Replay {
-		// the recorded finding deep-caught-throw-corrupts-frames is intermittent: a replay gets three more tries
+		// deep-caught-throw-corrupts-frames (fixed 4eaf1af) was intermittent: a replay gets three more tries
 		for i := 0; i < 3; i++ {
 			if _, _, err := mrun.Compare(wDefault, c, ctx, sb.Cfg{}); err != nil {
 				return err
